@@ -153,7 +153,7 @@ def run(chk):
                 specs.append({k: (None if i != len(names) - 1 else 'dirichlet') for i, k in enumerate(names)})
                 specs.append({k: ('von neumann' if i % 2 == 0 else 'dirichlet') for i, k in enumerate(names)})
             for kind in (('PINN', 'SPINN') if thorough else ('PINN',)):
-                for spec, m_u, dim in [(sp, 1, None) for sp in specs] + [(specs[0], 2, 1), (specs[1], 3, 2)]:
+                for spec, m_u, dim in [(sp, 1, None) for sp in specs] + [(specs[0], 2, 1), (specs[1], 3, 2), (specs[0], 2, -1)]:
                     cfg = {"loss": eq_type, "net": kind, "d": d, "per_facet": spec, "outputs": m_u, "dim": dim}
 
                     def go(eq_type=eq_type, kind=kind, d=d, spec=spec, time=time, names=names, m_u=m_u, dim=dim):
@@ -165,7 +165,7 @@ def run(chk):
                             if spec[k] is None:
                                 continue
                             exp = exp + expected_facet(S, kind, 'dirichlet' if spec[k] == 'dirichlet' else 'neumann',
-                                                       d, f, funs[k], [0 if dim is None else dim], time, rows, S.w['boundary_loss'])
+                                                       d, f, funs[k], [0 if dim is None else dim % m_u], time, rows, S.w['boundary_loss'])
                         exp = canon(exp, keep_deps=keep_facet)
                         if found != exp:
                             raise Violation("boundary_loss", str(found), str(exp))
